@@ -53,7 +53,17 @@ def directed():
         # checkpoint at a clean close in the middle, rejected append, release
         [{"m": "put", "k": 1, "v": "v1"}, {"m": "append", "k": 1, "c": "c1"}, {"m": "append", "k": 1, "c": "c1"}, {"m": "acquire", "k": 1},
          {"m": "delete", "k": 1}, {"m": "reopen"}, {"m": "release", "k": 1}, {"m": "remove", "k": 1, "c": "c1"}, {"m": "put", "k": 1, "v": "v2"}],
+        # bulk hand-over: one Import and one RemoveKeys of several hundred keys (more than any internal batch) are one operation each
+        [{"m": "put", "k": 1, "v": "v1"}, {"m": "importfill", "n": 520}, {"m": "put", "k": 2, "v": "v2"}, {"m": "removefill", "n": 520},
+         {"m": "delete", "k": 1}],
     ]
+
+
+def bulk_cycles(n=6, size=1500):
+    h = []
+    for i in range(n):
+        h += [{"m": "importfill", "n": size}, {"m": "put", "k": 1 + i % 3, "v": VALS[i % 2]}, {"m": "removefill", "n": size}]
+    return h
 
 
 def oracle(ck, hists):
@@ -71,12 +81,14 @@ def oracle(ck, hists):
 
 def norm_spec(p):
     return {"simple": list(p["simple"]), "kids": [sorted(k) for k in p["kids"]], "lease": [bool(x) for x in p["lease"]],
-            "listed": sorted(["".join(x[0]), x[1]] for x in p["listed"]), "ranged": sorted("".join(x) for x in p["ranged"])}
+            "listed": sorted(["".join(x[0]), x[1]] for x in p["listed"]), "ranged": sorted("".join(x) for x in p["ranged"]), "fill": p["fill"]}
 
 
 def norm_obs(o):
     return {"simple": list(o["simple"]), "kids": [sorted(k) for k in o["kids"]], "lease": [bool(x) for x in o["lease"]],
-            "listed": sorted([x[0], x[1]] for x in o["listed"]), "ranged": sorted(o["ranged"])}
+            "listed": sorted([x[0], x[1]] for x in o["listed"]), "ranged": sorted(o["ranged"]),
+            "fill": o.get("fill", 0) if o.get("fill", 0) == o.get("fill_listed", 0) == o.get("fill_read", 0) else
+            "RangeKeys %s / ListKeys %s / readable %s" % (o.get("fill"), o.get("fill_listed"), o.get("fill_read"))}
 
 
 def consistent(p):
@@ -311,12 +323,12 @@ def run(ck):
         rec_hists = [rp["ops"]] if rp.get("mode") != "kill" or len(rp["ops"]) <= 80 else []     # every boundary: deterministic
         nkill = 40
     elif ck.thorough:
-        kill_hists = [gen_history(rng, 60) for _ in range(6)] + [gen_history(rng, 700)] + directed()
+        kill_hists = [gen_history(rng, 60) for _ in range(6)] + [gen_history(rng, 700)] + directed() + [bulk_cycles()]
         rec_hists = directed() + [gen_history(rng, 10, reopen=1) for _ in range(10)]
         nkill = 24
     else:
-        kill_hists = [gen_history(rng, 60) for _ in range(2)] + [gen_history(rng, 400)]
-        rec_hists = [directed()[0], gen_history(rng, 5, reopen=1)]
+        kill_hists = [gen_history(rng, 60) for _ in range(2)] + [gen_history(rng, 400), bulk_cycles()]
+        rec_hists = [directed()[0], directed()[2], gen_history(rng, 5, reopen=1)]
         nkill = 8
     hists = kill_hists + rec_hists
     pre = oracle(ck, hists)
@@ -386,7 +398,7 @@ def run(ck):
             first = next((i for i, im in enumerate(imgs) if im["acked"] > 0 or im["after"].startswith("ack")), len(imgs))
             head = list(range(0, first))
             keep = set(head[:: max(1, len(head) // 20)]) | set(range(max(0, first - 5), len(imgs)))
-            if len(keep) > 140:
+            if len(keep) > 140 and not any(x["m"] in ("importfill", "removefill") for x in h):     # bulk operations: every boundary inside them
                 tail = sorted(keep)
                 keep = set(tail[:: 1 + len(tail) // 140]) | {len(imgs) - 1}
             imgs = [imgs[i] for i in sorted(keep)]
@@ -410,7 +422,7 @@ def run(ck):
     ck.traces += len(hists)
     ck.sample({"history": kill_hists[0][:12] if kill_hists else None, "prefix_projection_after_3": kpre[0][3]["proj"] if kill_hists else None})
     ck.rule = ("histories of put/delete/append/remove/import(1-3 keys)/removekeys(1-3 keys)/acquire/release (+ clean reopen) over 3 keys x 2 values x 2 "
-               "children, seeded; oracle = TLC's prefix projections (KVStore.Do); crash points = SIGKILL at moments spread over the run (60- and "
+               "children, seeded, plus bulk histories (one Import / one RemoveKeys of 520 resp. 1500 filler keys, projected to their number); oracle = TLC's prefix projections (KVStore.Do); crash points = SIGKILL at moments spread over the run (60- and "
                "500-operation histories, the long one crosses WAL auto-checkpoints) and every syscall boundary (pwrite/ftruncate/fallocate/fsync/"
                "unlink/acknowledgement) of short histories recorded with strace; non-trivial = kill inside the history, every image; "
                "distinct = (history, acknowledged count) resp. (history, boundary, file sizes)")
